@@ -3,7 +3,7 @@
 Fail-closed: any statement outside the recognised loop shape raises TranslationError.
 """
 import ast
-from .common import (TranslationError, parse, find_class, find_func, body_wo_doc, src_of,
+from .common import (inline_const_locals, inline_ref_aliases, TranslationError, parse, find_class, find_func, body_wo_doc, src_of,
                      key_of_float, coq_okey, coq_bool, is_attr, HEADER)
 
 
@@ -86,6 +86,7 @@ def _outer_agents_loop(stmts, file, fn, collection=('agents',)):
 
 def check_limits_descr(repo, rel, cls, items):
     tree, src = parse(repo, rel)
+    inline_const_locals(inline_ref_aliases(tree))     # numeric literals and pure references bound to a local once are what they name
     c = find_class(tree, cls)
     fn = find_func(c, 'check_limits') if c else None
     if fn is None:
@@ -141,6 +142,7 @@ def uniform_signature(repo, items):
     """Defaults of generate_uniform_random_number and the positional pass-through to np.random.uniform."""
     rel = 'opytimizer/math/random.py'
     tree, src = parse(repo, rel)
+    inline_const_locals(inline_ref_aliases(tree))     # numeric literals and pure references bound to a local once are what they name
     fn = find_func(tree, 'generate_uniform_random_number')
     if fn is None:
         raise TranslationError(rel, tree, 'generate_uniform_random_number not found')
@@ -166,6 +168,7 @@ def uniform_signature(repo, items):
 
 def init_descr(repo, rel, cls, fname, collection, usig, items):
     tree, src = parse(repo, rel)
+    inline_const_locals(inline_ref_aliases(tree))     # numeric literals and pure references bound to a local once are what they name
     c = find_class(tree, cls)
     fn = find_func(c, fname) if c else None
     if fn is None:
